@@ -2112,9 +2112,13 @@ where
                     M::combine_mut(&mut output, out, |c, out| C::write(c, idx, out));
                 }
                 Ok(None) => {
-                    // let span = inp.span_since(&before);
-                    // We don't add an alt here because we assume the inner parser will. Is this safe to assume?
-                    // inp.add_alt([ExpectedMoreElements(Some(C::LEN - idx))], None, span);
+                    // The iterator ended before the collection was full. It does not necessarily record a failure itself
+                    // (think `at_most(k)` with `k < LEN`, or `into_iter()`), but a failing parser must always leave an
+                    // error behind, so record one where the iterator stopped
+                    let here = inp.cursor();
+                    let found = inp.peek_maybe();
+                    let span = inp.span_since(&here);
+                    inp.add_alt([], found, span);
                     // SAFETY: We're guaranteed to have initialized up to `idx` values
                     M::map(output, |mut output| unsafe {
                         C::drop_before(&mut output, idx)
